@@ -1,41 +1,41 @@
 /-
 C15  A solved spline reproduces data, end conditions and polynomials, with exact AD.
 
-PROVED here (over any field, with the arithmetic of the f64 code path): after `csolve` the spline meets
-every collocation condition — interior data points and the two derivative end conditions — whenever the
+COLLOCATION (over any field, with the arithmetic of the f64 code path): after `csolve` the spline meets every
+collocation condition — interior data points and the two derivative end conditions — whenever the
 elimination never divides by zero (`PivotsGood`, which non-singularity of the collocation matrix
-guarantees; Schoenberg–Whitney is a hypothesis); mismatched site counts are errors; evaluating before
-solving is an error; the value part of a dual-abscissa evaluation is the plain evaluation.
-DATA SENSITIVITIES (`C15_data_sensitivity`, `C15_data_value`): a spline solved on list-level dual-number
-data has, at every abscissa and derivative order, a sensitivity to each variable name equal to the spline
-solved on the data's sensitivities to that name (so, with one tag per datum, the unit-data spline), and a
-value equal to the spline solved on the data's values.
-PARTIAL (DESIGN.md "C15 partial"): polynomial reproduction (Marsden) and the chain-rule statement for dual
-abscissae are covered by the correspondence run and the model-free oracle (polynomial data of degree < k
-reproduced with all derivatives), not by theorems.
+guarantees, `C13_nonsingular`; Schoenberg–Whitney is a hypothesis); mismatched site counts are errors;
+evaluating before solving is an error.
+POLYNOMIAL REPRODUCTION (`C15_polynomials_are_splines`, `C15_polynomial_reproduction`; Proofs/Marsden.lean,
+Proofs/SplineRepro.lean): by Marsden's identity every polynomial of degree below the order is a spline on
+the whole domain, and — since a system whose elimination meets no zero pivot has exactly one solution
+(`C15_solver_complete`) — a spline solved on data taken from such a polynomial (values at interior sites,
+the prescribed derivatives at the end sites) equals it, with ALL derivatives, everywhere in the domain,
+knots and both end points included.
+DERIVATIVES OF THE SPLINE (`C15_spline_derivative`, `C15_spline_derivative_right_end`): the order-`(m+1)`
+evaluation is the right derivative of the order-`m` evaluation (left derivative at the right end point).
+DUAL-NUMBER ABSCISSAE (`C15_dual_abscissa`, `C15_dual2_abscissa`, `C15_dual_abscissa_dual_coeffs`,
+`C15_dual2_abscissa_dual2_coeffs`): value = plain evaluation; first-order sensitivities `S'(x)·∂x`;
+stored second-order sensitivities `S'(x)·½∂²x + ½S''(x)·∂x∂x`; with dual-number coefficients additionally the
+product rule (first order by names; second order as 2-jets along every direction).
+DATA SENSITIVITIES (`C15_data_sensitivity`, `C15_data_value`, `C15_data_sensitivity2`): a spline solved on
+list-level dual-number data has, at every abscissa and derivative order, a sensitivity to each variable name
+equal to the spline solved on the data's sensitivities to that name (so, with one tag per datum, the
+unit-data spline), a value equal to the spline solved on the data's values, and (second-order data) second
+sensitivities equal to the spline solved on the data's second sensitivities.
+NOT COVERED BY A THEOREM: the least-squares (tall) branch of `csolve` for polynomial reproduction; covered by
+the correspondence run and the model-free oracle.
 -/
 import RateslibModel.Proofs.FSolve
 import RateslibModel.Props.C14
 import RateslibModel.Proofs.FLinearInst
+import RateslibModel.Proofs.SplineRepro
+import RateslibModel.Proofs.Jet2Ring
 namespace Rateslib
 open Finset
 
 section Field
 variable {K : Type} [Field K] [Transc K] (ge : K → K → Bool)
-
-/-- which derivative the collocation row `j` of `csolve` prescribes -/
-def rowOrder (ntau leftN rightN j : Nat) : Nat :=
-  if j = ntau - 1 then rightN else if j = 0 then leftN else 0
-
-theorem bsplMatrix_row (k : Nat) (t : List K) (n : Nat) (tau : List K) (leftN rightN j i : Nat) :
-    bsplMatrix k t n tau leftN rightN j i
-      = bspldnev t (tau.getD j 0) (rowOrder tau.length leftN rightN j) i k none := by
-  unfold bsplMatrix rowOrder
-  split
-  · rfl
-  · split
-    · rename_i h0; subst h0; rfl
-    · rfl
 
 /-- After solving (square case), the spline satisfies every collocation condition: at every interior
 site `τ_j` its value is the datum `y_j`; at the first (last) site its `left_n`-th (`right_n`-th)
@@ -98,6 +98,127 @@ theorem C15_csolve_shape (s s' : PPSpline α τ) (tau : List α) (y : List τ) (
 
 end Errors
 
+
+/-! ### derivatives of the spline, dual-number abscissae -/
+section Abscissa
+open Rateslib.Dual
+
+/-- THE SPLINE'S DERIVATIVES, from the right: strictly before the last knot, the order-`(m+1)` evaluation of
+a solved spline is the right derivative of its order-`m` evaluation. -/
+theorem C15_spline_derivative (s : PPSpline ℝ ℝ) (c : List ℝ) (hc : s.c = some c) (hs : SortedKnots s.t)
+    (x : ℝ) (hx : x < knot s.t (s.t.length - 1)) (m : Nat) :
+    ∃ (f : ℝ → ℝ) (f' : ℝ), (∀ y, s.ppdnev y m = some (f y)) ∧ s.ppdnev x (m + 1) = some f' ∧
+      HasDerivWithinAt f f' (Set.Ici x) x :=
+  ppdnev_right_deriv s c hc hs x hx m
+
+/-- … and from the left at the right end point. -/
+theorem C15_spline_derivative_right_end (s : PPSpline ℝ ℝ) (c : List ℝ) (hc : s.c = some c)
+    (H : RightEnd s.t s.k) (m : Nat) :
+    ∃ (f : ℝ → ℝ) (f' : ℝ), (∀ y, s.ppdnev y m = some (f y)) ∧
+      s.ppdnev (knot s.t (s.t.length - 1)) (m + 1) = some f' ∧
+      HasDerivWithinAt f f' (Set.Iic (knot s.t (s.t.length - 1))) (knot s.t (s.t.length - 1)) :=
+  ppdnev_left_deriv_end s c hc H m
+
+/-- EVALUATION AT A DUAL-NUMBER ABSCISSA (float coefficients, first order, any layout of the abscissa): the
+result is well formed, its value is the plain evaluation at the value of the abscissa, and its sensitivity
+to every variable name is the spline's own next derivative there times the abscissa's sensitivity. -/
+theorem C15_dual_abscissa (s : PPSpline ℝ ℝ) (x : Dual ℝ) (hx : x.WF) (m : Nat) (v : String) :
+    (∀ d, ppdnevDualF s x m = some d → d.WF) ∧
+    (ppdnevDualF s x m).map (fun d => d.real) = s.ppdnev x.real m ∧
+    (ppdnevDualF s x m).map (fun d => den d v) = (s.ppdnev x.real (m + 1)).map (fun S1 => S1 * den x v) :=
+  ppdnevDualF_spec s x hx m v
+
+/-- SECOND ORDER: value, first-order sensitivities `S'(x)·∂x`, and stored (half) second-order sensitivities
+`S'(x)·½∂²x + ½S''(x)·∂x∂x` — the spline's own first and second derivatives. -/
+theorem C15_dual2_abscissa (s : PPSpline ℝ ℝ) (x : Dual2 ℝ) (hx : x.WF) (m : Nat) (v w : String) :
+    (∀ d, ppdnevDual2F s x m = some d → d.WF) ∧
+    (ppdnevDual2F s x m).map (fun d => d.real) = s.ppdnev x.real m ∧
+    (ppdnevDual2F s x m).map (fun d => Dual2.den d v)
+      = (s.ppdnev x.real (m + 1)).map (fun S1 => S1 * Dual2.den x v) ∧
+    (∀ S1 S2, s.ppdnev x.real (m + 1) = some S1 → s.ppdnev x.real (m + 2) = some S2 →
+      (ppdnevDual2F s x m).map (fun d => Dual2.den2 d v w)
+        = some (S1 * Dual2.den2 x v w + S2 * (1 / 2 * (Dual2.den x v * Dual2.den x w)))) :=
+  ppdnevDual2F_spec s x hx m v w
+
+/-- Dual-number coefficients AND dual-number abscissa (first order): product rule and chain rule together —
+the sensitivity to `v` is the evaluation of the spline whose coefficients are the coefficients'
+sensitivities to `v`, plus the value-spline's next derivative times the abscissa's sensitivity to `v`. -/
+theorem C15_dual_abscissa_dual_coeffs (s : PPSpline ℝ (Dual ℝ)) (c : List (Dual ℝ)) (hc : s.c = some c)
+    (hwf : ∀ d ∈ c, d.WF) (x : Dual ℝ) (hx : x.WF) (m : Nat) (v : String) :
+    ∃ d, ppdnevDualD s x m = some d ∧ d.WF ∧
+      some d.real = (⟨s.k, s.t, some (c.map fun d => d.real)⟩ : PPSpline ℝ ℝ).ppdnev x.real m ∧
+      ∃ A B, (⟨s.k, s.t, some (c.map fun d => den d v)⟩ : PPSpline ℝ ℝ).ppdnev x.real m = some A ∧
+        (⟨s.k, s.t, some (c.map fun d => d.real)⟩ : PPSpline ℝ ℝ).ppdnev x.real (m + 1) = some B ∧
+        den d v = A + B * den x v :=
+  ppdnevDualD_spec s c hc hwf x hx m v
+
+open Expr in
+/-- Second-order coefficients AND second-order abscissa: along every direction `α·e_v + β·e_w` of the
+variable space, the 2-jet of the result is the spline formula `Σ c_i · B_i(x)` evaluated in the ring of
+2-jets `ℝ[ε]/(ε³)` at the 2-jets of the coefficients and of the abscissa (`basisJet`: Taylor to second order
+with the spline's own first and second derivatives). -/
+theorem C15_dual2_abscissa_dual2_coeffs (s : PPSpline ℝ (Dual2 ℝ)) (c : List (Dual2 ℝ)) (hc : s.c = some c)
+    (hwf : ∀ d ∈ c, d.WF) (x : Dual2 ℝ) (hx : x.WF) (m : Nat) (α β : ℝ) (v w : String) :
+    ∃ d, ppdnevDual2D2 s x m = some d ∧ d.WF ∧
+      dirJet α β v w d
+        = ((List.range s.n).map fun i =>
+            dirJet α β v w (c.getD i (Dual2.new 0 [])) * basisJet s.t s.k m i (dirJet α β v w x)).sum :=
+  ppdnevDual2D2_jet s c hc hwf x hx m α β v w
+
+end Abscissa
+
+/-! ### polynomial reproduction -/
+section Reproduction
+open Polynomial
+
+/-- COMPLETENESS OF THE SOLVER (any field): if the elimination meets no zero pivot, EVERY solution of the
+system is the returned one. -/
+theorem C15_solver_complete {K : Type} [Field K] (ge : K → K → Bool) (n : Nat) (s : Sys K)
+    (hp : PivotsGood ge n (List.range n) s) (x : Nat → K) (hx : Sol n s x) :
+    ∀ c, c < n → x c = @dsolve21 K (ringLinOps ge) n s c :=
+  dsolve21_unique ge n s hp x hx
+
+/-- EVERY POLYNOMIAL OF DEGREE BELOW THE ORDER IS A SPLINE, WITH ALL ITS DERIVATIVES: with Marsden's
+coefficients the model's derivative evaluation of every order `m`, anywhere in the domain — knots and both
+end points included — is the `m`-th derivative of the polynomial. -/
+theorem C15_polynomials_are_splines (t : List ℝ) (K : Nat) (H : RightEnd t K) (he : EndKnots t K)
+    (p : ℝ[X]) (hp : p.natDegree < K) (m : Nat) (x : ℝ) (hx0 : knot t 0 ≤ x) (hx1 : x ≤ knot t (t.length - 1)) :
+    (⟨K, t, some ((List.range (t.length - K)).map (marsdenCoef t K p))⟩ : PPSpline ℝ ℝ).ppdnev x m
+      = some ((derivative^[m] p).eval x) := by
+  rw [ppdnev_real _ _ rfl]
+  congr 1
+  rw [← poly_spline_derivs t K H he p hp m x hx0 hx1]
+  unfold splineFn
+  rw [fdot_real_sum, fdot_real_sum]
+  apply Finset.sum_congr rfl
+  intro i hi
+  rw [Finset.mem_range] at hi
+  congr 1
+  rw [getD_map_range]
+  exact if_pos hi
+
+/-- POLYNOMIAL REPRODUCTION: solve a spline of order `K` (square system, sites in the domain, any end
+derivative orders) on data taken from a polynomial `p` of degree below `K` — values at interior sites, the
+prescribed derivatives at the two end sites.  If the elimination meets no zero pivot (non-singular
+collocation matrix), the solved spline and ALL its derivatives equal `p` and its derivatives everywhere in
+the domain, knots and both end points included. -/
+theorem C15_polynomial_reproduction (t : List ℝ) (K : Nat) (H : RightEnd t K) (he : EndKnots t K)
+    (p : ℝ[X]) (hp : p.natDegree < K) (tau : List ℝ) (l r : Nat)
+    (htau : ∀ j, j < tau.length → knot t 0 ≤ tau.getD j 0 ∧ tau.getD j 0 ≤ knot t (t.length - 1))
+    (y : List ℝ)
+    (hy : ∀ j, j < tau.length → y.getD j 0 = (derivative^[rowOrder tau.length l r j] p).eval (tau.getD j 0))
+    (hpiv : PivotsGood geR (t.length - K) (List.range (t.length - K))
+      ⟨bsplMatrix K t (t.length - K) tau l r, fun i => y.getD i 0⟩)
+    (s' : PPSpline ℝ ℝ) (h : (⟨K, t, none⟩ : PPSpline ℝ ℝ).csolve tau y l r false = some s') :
+    ∀ (x : ℝ), knot t 0 ≤ x → x ≤ knot t (t.length - 1) → ∀ m,
+      s'.ppdnev x m = some ((derivative^[m] p).eval x) :=
+  poly_reproduction t K H he p hp tau l r htau y hy hpiv s' h
+
+/-- the comparison of the theorem is the one the model's own float instance uses -/
+theorem C15_geR_is_model_instance (x y : ℝ) : @LinOps.absGe ℝ linOpsScalar x y = geR x y := rfl
+
+end Reproduction
+
 /-! ### sensitivities to the data -/
 section DataSensitivity
 open Rateslib.Dual
@@ -122,6 +243,24 @@ theorem C15_data_value (k : Nat) (t tau : List ℝ) (y : List (Dual ℝ)) (hy : 
       (⟨k, t, none⟩ : PPSpline ℝ ℝ).csolve tau (y.map (fun d => d.real)) l r false = some sF ∧
       ∀ x m, (sD.ppdnev x m).map (fun d => d.real) = sF.ppdnev x m :=
   spline_hom (fun d => d.real) real_modHom k t tau y hy l r sD h
+
+/-- SECOND-ORDER DATA: the value, every first-order and every (stored, half) second-order sensitivity of the
+evaluated spline is the float spline solved on the corresponding projection of the data. -/
+theorem C15_data_sensitivity2 (k : Nat) (t tau : List ℝ) (y : List (Dual2 ℝ)) (hy : ∀ d ∈ y, d.WF)
+    (l r : Nat) (v w : String) (sD : PPSpline ℝ (Dual2 ℝ))
+    (h : (⟨k, t, none⟩ : PPSpline ℝ (Dual2 ℝ)).csolve tau y l r false = some sD) :
+    (∃ sF : PPSpline ℝ ℝ,
+      (⟨k, t, none⟩ : PPSpline ℝ ℝ).csolve tau (y.map (fun d => d.real)) l r false = some sF ∧
+      ∀ x m, (sD.ppdnev x m).map (fun d => d.real) = sF.ppdnev x m) ∧
+    (∃ sF : PPSpline ℝ ℝ,
+      (⟨k, t, none⟩ : PPSpline ℝ ℝ).csolve tau (y.map (fun d => Dual2.den d v)) l r false = some sF ∧
+      ∀ x m, (sD.ppdnev x m).map (fun d => Dual2.den d v) = sF.ppdnev x m) ∧
+    (∃ sF : PPSpline ℝ ℝ,
+      (⟨k, t, none⟩ : PPSpline ℝ ℝ).csolve tau (y.map (fun d => Dual2.den2 d v w)) l r false = some sF ∧
+      ∀ x m, (sD.ppdnev x m).map (fun d => Dual2.den2 d v w) = sF.ppdnev x m) :=
+  ⟨spline_homG _ Dual2.WF real_modHom2 k t tau y hy l r sD h,
+   spline_homG _ Dual2.WF (den_modHom2 v) k t tau y hy l r sD h,
+   spline_homG _ Dual2.WF (den2_modHom v w) k t tau y hy l r sD h⟩
 
 end DataSensitivity
 
